@@ -457,6 +457,7 @@ func EqualType(type1, type2 SessionType, labelledTypesEnv LabelledTypesEnv) bool
 
 // The snapshots maps keeps a snapshot of both types in case the types are unfolded. This ensures that the types do not keep unfolding infinitely.
 func innerEqualType(type1, type2 SessionType, snapshots map[string]bool, labelledTypesEnv LabelledTypesEnv) bool {
+	vhTy(1)
 	a := reflect.TypeOf(type1)
 	b := reflect.TypeOf(type2)
 
@@ -755,6 +756,7 @@ func UnfoldIfNeeded(orig SessionType, typeDefs *[]SessionTypeDefinition) Session
 
 // Used to unroll a type only if needed (i.e. reached label)
 func Unfold(orig SessionType, labelledTypesEnv LabelledTypesEnv) SessionType {
+	vhTy(2)
 	if orig == nil {
 		return nil
 	}
